@@ -120,6 +120,7 @@ type Contract struct {
 	OwnMods     []*ModItem
 	HasOwn      bool
 	CbInvs      map[string][]*Clause // site NAME: callback-invariant ... (kept by the callbacks passed to NAME)
+	SiteAssumes map[string][]*Clause // site NAME: assume ... (about the result of the call; part of a declared assumption)
 }
 
 func (c *Contract) HasProp(p string) bool {
@@ -384,6 +385,18 @@ func parseContractFile(path, pkgDir string, src []byte) (*ContractFile, error) {
 			}
 			name := strings.TrimSpace(rest[:j])
 			sub := strings.TrimSpace(rest[j+1:])
+			if strings.HasPrefix(sub, "assume") {
+				// a fact about the result of a call of NAME that belongs to a declared assumption (the buffers): assumed
+				// after the call, never proved, always listed with the assumptions
+				cl := mk("siterequires", strings.TrimSpace(strings.TrimPrefix(sub, "assume")))
+				cl.Callback = name
+				cl.Assumed = true
+				if cur.SiteAssumes == nil {
+					cur.SiteAssumes = map[string][]*Clause{}
+				}
+				cur.SiteAssumes[name] = append(cur.SiteAssumes[name], cl)
+				break
+			}
 			if strings.HasPrefix(sub, "callback-invariant") {
 				cl := mk("siterequires", strings.TrimSpace(strings.TrimPrefix(sub, "callback-invariant")))
 				cl.Callback = name
@@ -483,6 +496,16 @@ func parseContractFile(path, pkgDir string, src []byte) (*ContractFile, error) {
 		sort.Strings(sn)
 		for _, k := range sn {
 			for _, cl := range c.Sites[k] {
+				lbl(cl)
+			}
+		}
+		var san []string
+		for k := range c.SiteAssumes {
+			san = append(san, k)
+		}
+		sort.Strings(san)
+		for _, k := range san {
+			for _, cl := range c.SiteAssumes[k] {
 				lbl(cl)
 			}
 		}
